@@ -207,7 +207,7 @@ class Network(ElementBase):
         self._graph.add_nodes_from(nodes)
         return self
 
-    @invalidate_cache(links_by_name, nodes_by_link)
+    @invalidate_cache(nodes_by_name, links_by_name, nodes_by_link)
     def add_link(
         self, node_up: Node, link: Link[VarType], node_down: Node
     ) -> "Network":
@@ -230,7 +230,7 @@ class Network(ElementBase):
         self._graph.add_edge(node_up, node_down, **{LINKENTRY: link})
         return self
 
-    @invalidate_cache(links_by_name, nodes_by_link)
+    @invalidate_cache(nodes_by_name, links_by_name, nodes_by_link)
     def add_links(self, links: Iterable[tuple[Node, Link[VarType], Node]]) -> "Network":
         """Adds multiple links. See `Network.add_link`.
 
@@ -252,7 +252,7 @@ class Network(ElementBase):
         self._graph.add_edges_from(get_edge(link) for link in links)
         return self
 
-    @invalidate_cache(origins, origins_by_node, origins_by_name)
+    @invalidate_cache(nodes_by_name, origins, origins_by_node, origins_by_name)
     def add_origin(self, origin: Origin[VarType], node: Node) -> "Network":
         """Adds the given traffic origin to the node.
 
@@ -274,7 +274,9 @@ class Network(ElementBase):
             self.nodes[node][ORIGINENTRY] = origin
         return self
 
-    @invalidate_cache(destinations, destinations_by_node, destinations_by_name)
+    @invalidate_cache(
+        nodes_by_name, destinations, destinations_by_node, destinations_by_name
+    )
     def add_destination(
         self, destination: Destination[VarType], node: Node
     ) -> "Network":
